@@ -39,7 +39,7 @@ def run():
         jobs.append((doc, optsets[i % 2], "shipped " + os.path.basename(p), None, False))
     n_gen = 24 if quick else 240
     for i in range(n_gen):
-        doc = gen.gen_document(rnd)
+        doc = gen.gen_document(rnd, kinds=["rule", "grammar", "mem", "split", "wrap", "wrap", "zero", "identity", "tradeoff"])
         opts = optsets[i % len(optsets)]
         kind = i % 6
         if kind == 4:
